@@ -502,9 +502,9 @@ pub fn property() -> Property {
             "%y/%g/%D are documented to represent only 1969..=2068 (Err elsewhere); %C of negative years is implementation-defined in C and not judged; '-' flag with an explicit width is not generated (unspecified)",
         ],
         checks: vec![
-            Box::new(Prop { name: "c16.specifier", quick: 1_500_000, thorough: 50_000_000, strategy: strat_spec, test: test_specifier }),
-            Box::new(Prop { name: "c16.roundtrip", quick: 600_000, thorough: 20_000_000, strategy: strat_rt, test: test_roundtrip }),
-            Box::new(Prop { name: "c16.rfc2822", quick: 600_000, thorough: 20_000_000, strategy: strat_rt, test: test_rfc2822 }),
+            Box::new(Prop { name: "c16.specifier", quick: 6_000_000, thorough: 50_000_000, strategy: strat_spec, test: test_specifier }),
+            Box::new(Prop { name: "c16.roundtrip", quick: 2_400_000, thorough: 20_000_000, strategy: strat_rt, test: test_roundtrip }),
+            Box::new(Prop { name: "c16.rfc2822", quick: 2_400_000, thorough: 20_000_000, strategy: strat_rt, test: test_rfc2822 }),
         ],
         floors: |rec| {
             rec.floor("c16.specifier:within-7-days-of-year-boundary", "c16.specifier:cases", 0.25);
